@@ -23,8 +23,11 @@ def _() -> Event:
 
 @extern("Event.wait")
 def _(self: Event):
-    """returns once the event is set (by the coroutine that is saving the token)"""
+    """a yield point: returns once the event is set by the coroutine that is saving the token — which it does after the id has been
+    assigned or the save has failed; an id once assigned never changes (rely condition on the other coroutines)"""
+    assigns(self.is_set, all_of("PersistableEntity.persistent_id"))
     ensures(self.is_set)
+    ensures(forall(PersistableEntity, lambda e: implies(old(e.persistent_id) is not None, e.persistent_id == old(e.persistent_id))))
 
 
 @extern("Event.set")
@@ -51,8 +54,12 @@ def _(self: Database, port: Opt[Int], recoverable: Bool, tag: Str, type: Val, va
 
 @contract("streamflow/core/workflow.py", "Token.save")
 def _(self: Token, database: Database, port_id: Opt[Int] = None):
-    assigns(self.persistent_id, self._saving, TOKENS.rows, TOKENS.next, all_of("Event.is_set"))
+    assigns(all_of("PersistableEntity.persistent_id"), self._saving, TOKENS.rows, TOKENS.next, all_of("Event.is_set"))
     raises(WorkflowExecutionException)
+    # ids are stable: no token that has an id gets another one (what containers rely on: contracts/C08_tokens.py)
+    ensures(forall(PersistableEntity, lambda e: implies(old(e.persistent_id) is not None, e.persistent_id == old(e.persistent_id))))
+    # the saver itself returns normally only with an id
+    ensures(implies(old(self._saving) is None, self.persistent_id is not None))
     # saved at most once: a token that has an id, or whose save is in flight, is not written again ...
     ensures(implies(old(self.persistent_id) is not None or old(self._saving) is not None, TOKENS.rows == old(TOKENS.rows)))
     # ... and the second saver returns only when the first one has finished (its event is set)
